@@ -185,21 +185,23 @@ pub fn c10_read_full_hash_twin() {
 	read_case_twin::<6>(false, true, false);
 }
 
-// @verif property=C10,C11,C06 tier=thorough mem=24 timeout=5400
-// @encodes peppi::io::slippi::read (skip-frames path: jump arithmetic, hashed copy instead of seek), parse_header, parse_start, parse_payloads, game_start, parse_event (Game End), HashingReader, tail handling
+// @verif property=C10,C11 tier=quick mem=24 timeout=3000
+// @encodes peppi::io::slippi::read (skip-frames path: jump arithmetic, hashed copy through Take instead of seek), parse_header, parse_start, parse_payloads, game_start, parse_event (Game End), HashingReader, tail handling
 // @symbolic 88 random seed of the Game Start block, 6 arbitrary gap bytes, (Game End method concrete)
-// @bound one port-free 0.1 file (1-byte Game End), 6 skipped bytes between Game Start and Game End, no metadata; hashing on (unwind 8200: io::copy zero-fills its 8 KiB stack buffer in a loop)
+// @bound one port-free 0.1 file (1-byte Game End), 6 skipped bytes between Game Start and Game End, no metadata; hashing on
 // @assume file skeleton (signature, raw length, payload table, event codes) and the Game Start block except its random seed are concrete; see build()
+// @stub std::io::copy = a plain read/write_all loop over a 4-byte buffer (util::copy_stub): std's implementation initialises an 8 KiB buffer element by element, which did not finish in 90 min; the contract kept is "everything the reader yields, in order, until it is exhausted"
 // @stub xxhash_rust::xxh3::Xxh3::update = recorder comparing its input with the file, in order
 // @stub alloc::fmt::format = returns an empty String
 // @stub std::hash::RandomState::new = fixed keys
 // @cbmc --max-field-sensitivity-array-size 1024
 // @replay twin=c10_read_skip_hash_twin
 #[kani::proof]
-#[kani::unwind(8200)]
+#[kani::unwind(12)]
 #[kani::stub(alloc::fmt::format, format_stub)]
 #[kani::stub(std::hash::RandomState::new, random_state_stub)]
 #[kani::stub(xxhash_rust::xxh3::Xxh3::update, update_check)]
+#[kani::stub(std::io::copy, copy_stub)]
 fn c10_read_skip_hash() {
 	read_case::<6>(true, true, false);
 }
@@ -384,10 +386,31 @@ fn c07_read_cut_last_byte() {
 }
 
 // @verif property=C07,C06:thorough tier=quick mem=24 timeout=3000
-// @encodes peppi::io::slippi::read, parse_metadata, peppi::io::expect_bytes, ubjson::read_map (first read only) on a file cut right after the opening brace of its metadata element, and inside the `metadata` key
+// @encodes peppi::io::slippi::read, parse_metadata, peppi::io::expect_bytes on a file cut inside the `metadata` key that follows the last event
 // @symbolic 88 random seed of the Game Start block, 6 gap bytes
-// @bound one port-free 0.1 file (build()) with `U\x08metadata{` after the Game End; cut after the `{` (the metadata reader hits the end of the stream at its first read) and after 5 bytes of the key; skip-frames path
-// @assume file skeleton and cut positions concrete; metadata content is outside (ubjson::read_map beyond its first read is not encodable, DESIGN.md C16)
+// @bound one port-free 0.1 file (build()) with `U\x08metadata{` after the Game End, cut after 5 bytes of the key; skip-frames path
+// @assume file skeleton and cut position concrete
+// @stub alloc::fmt::format = returns an empty String
+// @stub std::hash::RandomState::new = fixed keys
+// @cbmc --max-field-sensitivity-array-size 1024
+#[kani::proof]
+#[kani::unwind(12)]
+#[kani::stub(alloc::fmt::format, format_stub)]
+#[kani::stub(std::hash::RandomState::new, random_state_stub)]
+#[kani::stub(xxhash_rust::xxh3::Xxh3::update, update_check)]
+fn c07_read_cut_in_metadata_key() {
+	let mut f: [u8; 400] = kani::any();
+	let total = build::<6>(&mut f, false, false);
+	let total = with_metadata_key(&mut f, total);
+	read_cut(&f, total - 6, true);
+	kani::cover!(true, "reached");
+}
+
+// @verif property=C07,C06 tier=thorough mem=32 timeout=5400
+// @encodes peppi::io::slippi::read, parse_metadata, ubjson::read_map (first read only) on a file cut right after the opening brace of its metadata element
+// @symbolic 88 random seed of the Game Start block, 6 gap bytes
+// @bound one port-free 0.1 file (build()) with `U\x08metadata{` after the Game End, cut after the `{`: the metadata reader hits the end of the stream at its first read; skip-frames path
+// @assume file skeleton and cut position concrete; metadata content is outside (ubjson::read_map beyond its first read is not encodable, DESIGN.md C16)
 // @stub alloc::fmt::format = returns an empty String
 // @stub std::hash::RandomState::new = fixed keys
 // @cbmc --max-field-sensitivity-array-size 1024
@@ -401,7 +424,6 @@ fn c07_read_cut_in_metadata() {
 	let total = build::<6>(&mut f, false, false);
 	let total = with_metadata_key(&mut f, total);
 	read_cut(&f, total, true);
-	read_cut(&f, total - 6, true);
 	kani::cover!(true, "reached");
 }
 
@@ -430,4 +452,246 @@ fn c07_read_cut_inside_events() {
 	// inside the payload table
 	read_cut(&f, TABLE + 5, false);
 	kani::cover!(true, "reached");
+}
+
+/// A file whose skipped region is `gap` bytes long for a solver-chosen `gap`: the bytes are never
+/// materialised.  `head` (signature .. Game Start) is served from a buffer; the tail (Game End
+/// events and the closing brace) from `tail`, one byte per read.  A relative seek from the end
+/// of the head is compared with the one distance that lands on the last Game End; any other
+/// distance, a read inside the skipped region, a multi-byte read in the tail or a read past the
+/// end is recorded in a flag and the stream continues at a concrete position (so that the rest
+/// of read() stays concrete); the harness fails on the flags.
+struct GapFile<'a> {
+	head: &'a [u8],
+	pos: usize,
+	gap: usize,
+	tail: &'a [u8],
+	/// offset of the last Game End inside `tail`
+	last_end: usize,
+	in_tail: bool,
+	tail_off: usize,
+}
+
+static mut SEEK_WRONG: bool = false;
+static mut SEEKS: usize = 0;
+static mut GAP_READS: usize = 0;
+static mut BULK_READS: usize = 0;
+static mut PAST_END: bool = false;
+
+impl<'a> Read for GapFile<'a> {
+	fn read(&mut self, buf: &mut [u8]) -> std::io::Result<usize> {
+		if self.in_tail {
+			if buf.len() != 1 {
+				// the tail of this file is read byte by byte (event code, 1-byte payload, brace)
+				unsafe { BULK_READS += 1 };
+				return Ok(buf.len());
+			}
+			if self.tail_off < self.tail.len() {
+				buf[0] = self.tail[self.tail_off];
+				self.tail_off += 1;
+			} else {
+				unsafe { PAST_END = true };
+				buf[0] = 0x7d;
+			}
+			Ok(1)
+		} else if self.pos < self.head.len() {
+			let avail = self.head.len() - self.pos;
+			let n = if buf.len() < avail { buf.len() } else { avail };
+			buf[..n].copy_from_slice(&self.head[self.pos..self.pos + n]);
+			self.pos += n;
+			Ok(n)
+		} else {
+			// reading inside the skipped region: not expected on the seek path
+			unsafe { GAP_READS += 1 };
+			self.in_tail = true;
+			self.tail_off = self.last_end;
+			Ok(buf.len())
+		}
+	}
+}
+
+impl<'a> Seek for GapFile<'a> {
+	fn seek(&mut self, pos: SeekFrom) -> std::io::Result<u64> {
+		unsafe { SEEKS += 1 };
+		let right = match pos {
+			SeekFrom::Current(d) => !self.in_tail && self.pos == self.head.len() && d >= 0 && d as u64 == (self.gap + self.last_end) as u64,
+			_ => false,
+		};
+		if !right {
+			unsafe { SEEK_WRONG = true };
+		}
+		self.in_tail = true;
+		self.tail_off = self.last_end;
+		Ok((self.head.len() + self.gap + self.last_end) as u64)
+	}
+}
+
+fn gap_head(f: &mut [u8; GAP], gap: u32, ends: usize) {
+	let keep: [u8; GAP] = *f;
+	*f = [0u8; GAP];
+	let mut k = 0;
+	while k < 4 {
+		f[START + 1 + 316 + k] = keep[START + 1 + 316 + k];
+		k += 1;
+	}
+	let mut i = 0;
+	while i < 11 {
+		f[i] = SIG[i];
+		i += 1;
+	}
+	let raw_len = (TABLE_LEN + 321 + 2 * ends) as u32 + gap;
+	let rl = raw_len.to_be_bytes();
+	f[11] = rl[0];
+	f[12] = rl[1];
+	f[13] = rl[2];
+	f[14] = rl[3];
+	f[TABLE] = 0x35;
+	f[TABLE + 1] = 10;
+	f[TABLE + 2] = 0x36;
+	f[TABLE + 3] = 1;
+	f[TABLE + 4] = 0x40;
+	f[TABLE + 5] = 0x39;
+	f[TABLE + 6] = 0;
+	f[TABLE + 7] = 1;
+	f[TABLE + 8] = 0x40;
+	f[TABLE + 9] = 0;
+	f[TABLE + 10] = 1;
+	f[START] = 0x36;
+	f[START + 1] = 0;
+	f[START + 2] = 1;
+	f[START + 3] = 0;
+	let mut p = 0;
+	while p < 6 {
+		f[START + 1 + 100 + 36 * p + 1] = 3;
+		p += 1;
+	}
+}
+
+fn gap_case(double_end: bool) {
+	// every length of the skipped region a 32-bit raw length can express
+	let gap: u32 = kani::any();
+	kani::assume(gap <= u32::MAX - 400);
+	let ends = if double_end { 2 } else { 1 };
+	let mut head: [u8; GAP] = kani::any();
+	gap_head(&mut head, gap, ends);
+	let tail1: [u8; 3] = [0x39, 2, 0x7d];
+	let tail2: [u8; 5] = [0x39, 2, 0x39, 2, 0x7d];
+	let tail: &[u8] = if double_end { &tail2 } else { &tail1 };
+	unsafe {
+		SEEK_WRONG = false;
+		SEEKS = 0;
+		GAP_READS = 0;
+		BULK_READS = 0;
+		PAST_END = false;
+	}
+	let file = GapFile { head: &head, pos: 0, gap: gap as usize, tail, last_end: 2 * (ends - 1), in_tail: false, tail_off: 0 };
+	let opts = Opts { skip_frames: true, compute_hash: false, debug: None };
+	let res = read(file, Some(&opts));
+	match &res {
+		Ok(g) => {
+			unsafe {
+				// one relative seek, by exactly the distance to the last Game End, no read in
+				// between, then the Game End and the closing brace and nothing else
+				assert!(SEEKS == 1);
+				assert!(!SEEK_WRONG);
+				assert!(GAP_READS == 0);
+				assert!(BULK_READS == 0);
+				assert!(!PAST_END);
+			}
+			assert!(g.start.bytes.0.len() == 320);
+			let i: usize = kani::any();
+			kani::assume(i < 320);
+			assert!(g.start.bytes.0[i] == head[START + 1 + i]);
+			match &g.end {
+				Some(e) => assert!(e.bytes.0.len() == 1 && e.bytes.0[0] == 2),
+				None => assert!(false),
+			}
+			assert!(g.frames.id.len() == 0);
+			assert!(g.metadata.is_none());
+			assert!(g.hash.is_none());
+		}
+		Err(_) => assert!(false),
+	}
+	kani::cover!(gap == 0, "nothing to skip");
+	kani::cover!(gap > (1 << 20), "more than 1 MiB skipped");
+	kani::cover!(gap > 0x7fff_ffff, "more than 2 GiB skipped");
+	forget(res);
+}
+
+/// Native twin: the same virtual file served byte-exactly (zeros in the skipped region), real
+/// seeks; read() must succeed with the file's Game Start and Game End.
+struct GapFileReal<'a> {
+	head: &'a [u8],
+	gap: u64,
+	tail: &'a [u8],
+	pos: u64,
+}
+
+impl<'a> Read for GapFileReal<'a> {
+	fn read(&mut self, buf: &mut [u8]) -> std::io::Result<usize> {
+		let h = self.head.len() as u64;
+		let total = h + self.gap + self.tail.len() as u64;
+		let mut n = 0;
+		while n < buf.len() && self.pos < total {
+			buf[n] = if self.pos < h {
+				self.head[self.pos as usize]
+			} else if self.pos < h + self.gap {
+				0
+			} else {
+				self.tail[(self.pos - h - self.gap) as usize]
+			};
+			self.pos += 1;
+			n += 1;
+		}
+		Ok(n)
+	}
+}
+
+impl<'a> Seek for GapFileReal<'a> {
+	fn seek(&mut self, pos: SeekFrom) -> std::io::Result<u64> {
+		match pos {
+			SeekFrom::Current(d) => self.pos = (self.pos as i64 + d) as u64,
+			SeekFrom::Start(p) => self.pos = p,
+			SeekFrom::End(d) => self.pos = ((self.head.len() as u64 + self.gap + self.tail.len() as u64) as i64 + d) as u64,
+		}
+		Ok(self.pos)
+	}
+}
+
+fn gap_case_twin(double_end: bool) {
+	let gap: u32 = kani::any();
+	let ends = if double_end { 2 } else { 1 };
+	let mut head: [u8; GAP] = kani::any();
+	gap_head(&mut head, gap, ends);
+	let tail1: [u8; 3] = [0x39, 2, 0x7d];
+	let tail2: [u8; 5] = [0x39, 2, 0x39, 2, 0x7d];
+	let tail: &[u8] = if double_end { &tail2 } else { &tail1 };
+	let file = GapFileReal { head: &head, gap: gap as u64, tail, pos: 0 };
+	let opts = Opts { skip_frames: true, compute_hash: false, debug: None };
+	let g = read(file, Some(&opts)).expect("read() with skip_frames failed on a well-formed file");
+	assert!(g.start.bytes.0[..] == head[START + 1..START + 321], "start block differs from the file");
+	let e = g.end.as_ref().expect("no Game End");
+	assert!(e.bytes.0[..] == [2u8], "Game End block differs from the file");
+	assert!(g.frames.id.len() == 0);
+}
+
+pub fn c10_read_skip_seek_any_gap_twin() {
+	gap_case_twin(false);
+}
+
+// @verif property=PROBE tier=thorough mem=24 timeout=5400
+// @encodes peppi::io::slippi::read (skip-frames path with seek: jump arithmetic from the header's raw length), parse_header, parse_start, parse_event (Game End), tail handling
+// @symbolic 64 length of the skipped region (every value a 32-bit raw length can express), random seed of the Game Start block
+// @bound one port-free 0.1 file (1-byte Game End) whose skipped region has a solver-chosen length 0 ..= 2^32-401; hashing off; no metadata
+// @assume the skipped bytes are never materialised: the stream is a virtual file (GapFile) that compares the one relative seek read() performs with the distance to the last Game End; file skeleton concrete
+// @stub alloc::fmt::format = returns an empty String
+// @stub std::hash::RandomState::new = fixed keys
+// @cbmc --max-field-sensitivity-array-size 1024
+// @replay twin=c10_read_skip_seek_any_gap_twin
+#[kani::proof]
+#[kani::unwind(12)]
+#[kani::stub(alloc::fmt::format, format_stub)]
+#[kani::stub(std::hash::RandomState::new, random_state_stub)]
+fn c10_read_skip_seek_any_gap() {
+	gap_case(false);
 }
